@@ -168,6 +168,8 @@ func (env *Env) eval(e *CExpr) CVal {
 		return env.callExpr(e)
 	case "forall", "exists":
 		return env.quant(e)
+	case "forallint":
+		return env.quantInt(e)
 	}
 	env.fail("cannot evaluate %s", e)
 	return CVal{}
@@ -175,6 +177,9 @@ func (env *Env) eval(e *CExpr) CVal {
 
 func (env *Env) ident(name string) CVal {
 	if b, ok := env.bound[name]; ok {
+		if b.Sort == SInt {
+			return CVal{T: b}
+		}
 		return CVal{T: b, Ty: intT}
 	}
 	if v, ok := env.vars[name]; ok {
@@ -579,6 +584,31 @@ func (env *Env) ghostBinary(op string, a, b CVal) CVal {
 
 func (env *Env) quant(e *CExpr) CVal {
 	name := e.Name
+	// a bounded quantifier over a small literal range is expanded (no trigger needed)
+	if len(e.Args) == 3 {
+		lo, hi := env.intOf(e.Args[1]), env.intOf(e.Args[2])
+		if l, ok1 := lo.BVVal(); ok1 {
+			if h, ok2 := hi.BVVal(); ok2 && int64(h)-int64(l) <= 16 && int64(h) >= int64(l) {
+				var parts []*Term
+				for i := int64(l); i < int64(h); i++ {
+					e3 := *env
+					e3.bound = map[string]*Term{}
+					for k, v := range env.bound {
+						e3.bound[k] = v
+					}
+					e3.bound[name] = BVLit(uint64(i), 64)
+					parts = append(parts, e3.boolOf(e.Args[0]))
+				}
+				var t *Term
+				if e.Op == "forall" {
+					t = And(parts...)
+				} else {
+					t = Or(parts...)
+				}
+				return CVal{T: t, Ty: types.Typ[types.Bool]}
+			}
+		}
+	}
 	bv := BoundVar("q$"+name, BV(64))
 	e2 := *env
 	e2.bound = map[string]*Term{}
@@ -604,6 +634,103 @@ func (env *Env) quant(e *CExpr) CVal {
 		t = Not(Forall([]*Term{bv}, Not(body), pats...))
 	}
 	return CVal{T: t, Ty: types.Typ[types.Bool]}
+}
+
+// quantInt: universal quantifier over the mathematical integers (ghost Int).  The trigger is the
+// smallest application of an uninterpreted ghost function that mentions the bound variable.
+func (env *Env) quantInt(e *CExpr) CVal {
+	names := strings.Split(e.Name, ",")
+	e2 := *env
+	e2.bound = map[string]*Term{}
+	for k, v := range env.bound {
+		e2.bound[k] = v
+	}
+	var bvs []*Term
+	for _, n := range names {
+		bv := BoundVar("qi$"+n, SInt)
+		bvs = append(bvs, bv)
+		e2.bound[n] = bv
+	}
+	body := e2.boolOf(e.Args[0])
+	var mentions func(t, bv *Term) bool
+	mentions = func(t, bv *Term) bool {
+		if t == bv {
+			return true
+		}
+		for _, a := range t.Args {
+			if mentions(a, bv) {
+				return true
+			}
+		}
+		return false
+	}
+	var arithFree func(t *Term) bool
+	arithFree = func(t *Term) bool {
+		switch t.Op {
+		case "*", "mod", "div", "+", "-":
+			return false
+		}
+		for _, a := range t.Args {
+			if !arithFree(a) {
+				return false
+			}
+		}
+		return true
+	}
+	// candidate triggers: applications of uninterpreted ghost functions without arithmetic inside
+	var cands []*Term
+	seen := map[int]bool{}
+	var walk func(t *Term)
+	walk = func(t *Term) {
+		if seen[t.id] {
+			return
+		}
+		seen[t.id] = true
+		if _, isGhost := specs.Ghosts[t.Op]; isGhost && patternOK(t) && arithFree(t) {
+			cands = append(cands, t)
+		}
+		for _, a := range t.Args {
+			walk(a)
+		}
+	}
+	walk(body)
+	var pats []*Term
+	var all *Term
+	for _, t := range cands {
+		ok := true
+		for _, bv := range bvs {
+			if !mentions(t, bv) {
+				ok = false
+			}
+		}
+		if ok && (all == nil || termSize(t) < termSize(all)) {
+			all = t
+		}
+	}
+	if all != nil {
+		pats = []*Term{all}
+	} else {
+		for _, bv := range bvs {
+			var best *Term
+			for _, t := range cands {
+				if mentions(t, bv) && (best == nil || termSize(t) < termSize(best)) {
+					best = t
+				}
+			}
+			if best != nil {
+				dup := false
+				for _, q := range pats {
+					if q == best {
+						dup = true
+					}
+				}
+				if !dup {
+					pats = append(pats, best)
+				}
+			}
+		}
+	}
+	return CVal{T: Forall(bvs, body, pats...), Ty: types.Typ[types.Bool]}
 }
 
 func (env *Env) callExpr(e *CExpr) CVal {
